@@ -76,6 +76,19 @@ class Group:
         self.pipe_failed = False
         self.cap_out = None
         self.cap_err = None
+        self.pipe_calls = 0
+        self.forkable = []         # stages that are created by fork (not in-process builtins)
+
+    def base_pipes(self):
+        """pipe() calls made up front: the stage pipes, then the two capture pipes"""
+        return max(0, len(self.stages) - 1) + (2 if self.capture else 0)
+
+    def complete(self):
+        if self.pipe_failed:
+            return True
+        if self.forkable:
+            return all(st.pid is not None or getattr(st, "fork_failed", False) for st in self.forkable)
+        return self.pipe_calls >= self.base_pipes()
 
 
 class Stage:
@@ -138,6 +151,7 @@ class Runner:
         self.externals_done = set()
         self.result = {}
         self.files = {}        # file model: absolute path -> bytearray
+        self.shell_fds1 = None
 
     # ---------------------------------------------------------------- shrinking support
     @classmethod
@@ -309,6 +323,7 @@ class Runner:
                 G.stages.append(st)
                 if not single_builtin:
                     flat.append(st)
+                    G.forkable.append(st)
             groups.append(G)
         line["_groups"] = groups
         line["_outer"] = groups[-1]
@@ -353,17 +368,20 @@ class Runner:
                 continue
             msg = ev[1]
             w = msg.split()
+            if self.shell_fds1 is None:
+                # the descriptor table while the script runs (the script file itself is open by now)
+                self.shell_fds1 = fd_snapshot(sim.shell_pid)
             if w[0] == "pipe?":
                 self.pipe_calls += 1
+                G = self.current_group()
+                if G is not None:
+                    G.pipe_calls += 1
                 e = self.pipe_fault(self.pipe_calls)
                 if e:
                     sim.fault("pipe_fail")
                     sim.ev("pipe() fails", e)
-                    if self.cur is not None:
-                        self.cur["_pipe_failed"] = True
-                        G = self.current_group()
-                        if G is not None:
-                            G.pipe_failed = True
+                    if G is not None:
+                        self.pipe_failed_in(G)
                     sim.shell_go("fail %d" % e)
                 else:
                     sim.shell_go()
@@ -432,11 +450,30 @@ class Runner:
         line = self.cur
         if line is None:
             return None
-        i = line["_next_fork"]
-        order = line["_fork_order"]
-        if i < len(order):
-            return order[i].group
+        for G in line["_groups"]:
+            if not G.complete():
+                return G
         return line["_outer"]
+
+    def pipe_failed_in(self, G):
+        """an injected pipe() failure: either the whole pipeline is given up (stage or
+        capture pipes) or only the stage whose here-string pipe it was"""
+        line = self.cur
+        if G.pipe_calls <= G.base_pipes():
+            G.pipe_failed = True
+            G.fully_forked = True
+            for st in G.stages:
+                if st.pid is None:
+                    st.gone = True
+                    st.fork_failed = True
+                    self.stage_ended_io(st)
+            order = line["_fork_order"]
+            while line["_next_fork"] < len(order) and order[line["_next_fork"]].group is G:
+                line["_next_fork"] += 1
+            if G is line["_outer"]:
+                line["_pipe_failed"] = True
+        else:
+            self.note_fork_failed()
 
     def note_fork_failed(self):
         line = self.cur
@@ -483,6 +520,36 @@ class Runner:
             pup = r[1]
             st.pup = pup
             sim.children[pid] = {"kind": "puppet"}
+            if (st.kind != "pup" or pup.name != st.name) and getattr(self, "relaxed", False):
+                # under real descriptor exhaustion a pipeline may have been given up without the
+                # harness being told: find the stage this program belongs to
+                order = line["_fork_order"]
+                for j in range(i + 1, len(order)):
+                    if order[j].kind == "pup" and order[j].name == pup.name:
+                        for k in range(i, j):
+                            sk = order[k]
+                            sk.gone = True
+                            sk.fork_failed = True
+                            sk.pid = None
+                            sk.started = 0
+                            sk.group.pipe_failed = True
+                            self.stage_ended_io(sk)
+                        self.stages.pop(pid, None)
+                        st = order[j]
+                        line["_next_fork"] = j + 1
+                        if st is st.group.stages[-1]:
+                            st.group.fully_forked = True
+                        if not st.wired:
+                            self.wire_stage(st)
+                            self.attach(st)
+                            st.wired = True
+                        st.pid = pid
+                        st.started += 1
+                        self.stages[pid] = st
+                        sim.names[pid] = st.label()
+                        sim.ev("resync", st.label())
+                        break
+            st.pup = pup
             if st.kind != "pup":
                 raise Violation("stage_started_twice", "%s (%s) executed a puppet" % (st.label(), st.kind))
             if pup.name != st.name:
@@ -589,6 +656,9 @@ class Runner:
         self.done_msgs.append((self.line_no, status, text))
         if line is None:
             raise Violation("stage_started_twice", "a pipeline finished after the last line")
+        line["_dones_seen"] = line.get("_dones_seen", 0) + 1
+        if line["_dones_seen"] < line.get("dones", 1):
+            return
         self.check_line_done(line, status)
         self.on_line_done(line, status)
         self.start_line()
